@@ -14,7 +14,7 @@ import (
 var schedFiles = map[string]instr.SchedConfig{
 	"internal/dag/graph_walker.go": {MapRanges: []string{"w.graph.nodes"},
 		Access: map[string]string{"w.nodeInfoMap[": "Walker.nodeInfoMap", "w.completions[": "Walker.completions"}},
-	"internal/worker/task_worker_pool.go":            {},
+	"internal/worker/task_worker_pool.go":            {AtomicPoints: true},
 	"internal/maps/mutex_map.go":                     {},
 	"internal/output/handlers/dir_output_handler.go": {ChanRanges: []string{"errChan"}},
 	"internal/caching/backends/remote_wrapper.go":    {ChanRanges: []string{"errChan"}},
@@ -25,7 +25,7 @@ var schedFiles = map[string]instr.SchedConfig{
 // scheduler packages.
 func schedOverlay(c *Ctx, tag string, files []string, harnessPkgs []string) *vc.Overlay {
 	ov := vc.NewOverlay()
-	for _, p := range append([]string{"vrep", "vs", "vsync", "explore"}, harnessPkgs...) {
+	for _, p := range append([]string{"vrep", "vs", "vsync", "vatomic", "explore"}, harnessPkgs...) {
 		if err := ov.AddHarness(p); err != nil {
 			c.R.BrokenCheck("overlay: %v", err)
 			return nil
